@@ -694,6 +694,10 @@ def run_sequence(desc, sh=None, seen=None):
     state_restore()
     rec = None
     feats = set()
+    rels = []
+    # the relations between the texts of a history are a property of the enumerated case, not of how far the library
+    # gets: they are computed for every step up front, so that the vacuity guard in finish() counts what was
+    # enumerated even when a (mutated) library already fails on the first parse of every such history
     for i, st in enumerate(steps):
         rel = set()
         for prev in steps[:i]:
@@ -707,7 +711,10 @@ def run_sequence(desc, sh=None, seen=None):
                 rel.add("nested-table-again")
             if _tables_of(prev["prog"], False) & _tables_of(st["prog"], False):
                 rel.add("table-again")
+        rels.append(rel)
         feats |= rel
+    for i, st in enumerate(steps):
+        rel = rels[i]
         got = outcome(G.execute, [st["text"]], entry=st["entry"])
         tags = st["tags"] | rel | {"history", "parse#%d" % (i + 1), "entry:" + st["entry"]}
         case = dict(desc=desc, texts=[x["text"] for x in steps], failing_parse=i + 1)
